@@ -6,6 +6,7 @@ import (
 	"database/sql"
 	"path"
 	"path/filepath"
+	"strconv"
 	"strings"
 
 	"github.com/pojntfx/stfs/internal/converters"
@@ -94,6 +95,10 @@ func (o *Operations) Move(from string, to string) error {
 			return err
 		}
 
+		if _, ok := hdr.PAXRecords[records.STFSRecordUncompressedSize]; !ok {
+			// An entry that stems from a foreign archive has no size record yet; without it the index would take the size from this record
+			hdr.PAXRecords[records.STFSRecordUncompressedSize] = strconv.Itoa(int(hdr.Size))
+		}
 		hdr.Size = 0 // Don't try to seek after the record
 		hdr.Format = tar.FormatPAX // The indexed entry may stem from a foreign USTAR or GNU archive, which can't carry the STFS records
 		hdr.Name = path.Join(to, strings.TrimPrefix(strings.TrimPrefix(dbhdr.Name, "/"), strings.TrimPrefix(from, "/")))
